@@ -37,6 +37,9 @@ type topo struct {
 	tld   *authsim.Server
 	zones []*zoneInfo
 	iso   []*isoZone // isolation-probe zones (see run.go)
+	// born: when the universe (and its packet log's clock) was created — a
+	// logged packet arrived at born + Packet.At
+	born time.Time
 }
 
 func (t *topo) zoneByApex(apex string) *zoneInfo {
@@ -76,8 +79,9 @@ type env struct {
 }
 
 func buildTopo(zoneServers []int, iso int) *topo {
+	born := time.Now()
 	u := authsim.New()
-	t := &topo{u: u}
+	t := &topo{u: u, born: born}
 	t.root = u.AddV4Only("root")
 	t.tld = u.AddV4Only("tld")
 	root := u.AddZone(zm.Spec{Apex: "."}, t.root)
